@@ -151,7 +151,7 @@ def verdict(prop, agg, runs, kinds, listed, gen):
     if agg["crashed"]:
         # the service runs inside the harness process: a crash of one of its goroutines is an observation about the code
         cr = agg["crashed"][0]
-        if "panic:" in cr["stderr"] and "HARNESS-ERROR" not in cr["stderr"]:
+        if "panic:" in cr["stderr"] and "HARNESS-ERROR" not in cr["stderr"] and not c.panic_in_harness(cr["stderr"]):
             return {"violations": [("the service crashed during a sync behaviour: %s" % cr["stderr"][-800:], {"family": "sync-crash", "stderr": cr["stderr"][-3000:]})],
                     "known": [], "notes": [], "level": "model_checking",
                     "coverage": {"states": 1, "transitions": 1, "traces_validated_against_impl": agg["behaviours"], "samples": ["crash"]}, "assumptions": ASSUME}
